@@ -1,4 +1,4 @@
-import Lemmas.NumFrame
+import Lemmas.NumRun
 /-! `compile` refuses a program exactly when the static rules (`Num.check`) do — apart from the two size limits
 (65536 resources, 32768 variables), which are separate outcomes — and it never dereferences a nil address. -/
 namespace Num
@@ -1470,5 +1470,267 @@ theorem visitStmts_ck {st : CState} {Γ : TEnv} (hinv : Inv st Γ) (ss : List St
       cases h2 : visitStmts st1 rest with
       | error er => rw [h2] at this; exact this.err (by intro hf; simp [hf])
       | ok r2 => obtain ⟨c2, st2⟩ := r2; rw [h2] at this; exact ⟨by simp [hs.1, this.1], trivial⟩
+
+/-! ### variable declarations and the whole program -/
+
+theorem any_eq_find_isSome {α} (l : List (String × α)) (n : String) :
+    l.any (fun x => decide (x.1 = n)) = (l.find? (fun x => decide (x.1 = n))).isSome := by
+  induction l with
+  | nil => rfl
+  | cons x xs ih =>
+    simp only [List.any_cons, List.find?_cons]
+    by_cases h : x.1 = n <;> simp [h, ih]
+
+theorem lookupTy_append (Γ : TEnv) (k n : String) (t : Ty) :
+    lookupTy (Γ ++ [(k, t)]) n = match lookupTy Γ n with | some x => some x | none => if k = n then some t else none := by
+  unfold lookupTy
+  rw [List.find?_append]
+  cases hf : Γ.find? (·.1 = n) with
+  | some x => simp
+  | none =>
+    by_cases hk : k = n
+    · simp [hk]
+    · simp [hk]
+
+/-- declaring one more variable keeps the compiler state and the typing environment in step -/
+theorem Inv.declare {st : CState} {Γ : TEnv} (hinv : Inv st Γ) {r : Resource} {name : String} {ty : Ty}
+    (hname : declName r = some name) (hty : r.bty = ty.toB)
+    (hfresh : lookupIdx st.varIdx name = none) :
+    Inv { st with resources := st.resources ++ [r], varIdx := st.varIdx ++ [(name, st.resources.length)] } (Γ ++ [(name, ty)]) := by
+  have hnc : ∀ v, r ≠ .const v := by intro v hv; subst hv; simp [declName] at hname
+  refine ⟨?_, ?_, ?_⟩
+  · intro n
+    show match lookupIdx (st.varIdx ++ [(name, st.resources.length)]) n with
+      | none => lookupTy (Γ ++ [(name, ty)]) n = none
+      | some a => ∃ r' t, (st.resources ++ [r])[a]? = some r' ∧ declName r' = some n ∧ r'.bty = Ty.toB t ∧ lookupTy (Γ ++ [(name, ty)]) n = some t
+    rw [lookupIdx_append, lookupTy_append]
+    have hv := hinv.vars n
+    cases hl : lookupIdx st.varIdx n with
+    | some a =>
+      rw [hl] at hv
+      obtain ⟨r', t, h1, h2, h3, h4⟩ := hv
+      simp only [h4]
+      exact ⟨r', t, by rw [List.getElem?_append_left (getElem?_lt h1)]; exact h1, h2, h3, rfl⟩
+    | none =>
+      rw [hl] at hv
+      simp only [hv]
+      by_cases hk : name = n
+      · subst hk
+        simp only [if_true]
+        exact ⟨r, ty, by simp, hname, hty, rfl⟩
+      · simp [hk]
+  · intro n n' a h1 h2
+    change lookupIdx (st.varIdx ++ [(name, st.resources.length)]) n = some a at h1
+    change lookupIdx (st.varIdx ++ [(name, st.resources.length)]) n' = some a at h2
+    rw [lookupIdx_append] at h1 h2
+    have old_lt : ∀ m x, lookupIdx st.varIdx m = some x → x < st.resources.length := by
+      intro m x hm
+      have := hinv.vars m
+      rw [hm] at this
+      obtain ⟨r', _, hr', _⟩ := this
+      exact getElem?_lt hr'
+    cases hl : lookupIdx st.varIdx n with
+    | some x =>
+      simp only [hl, Option.some.injEq] at h1; subst h1
+      cases hl' : lookupIdx st.varIdx n' with
+      | some y =>
+        simp only [hl', Option.some.injEq] at h2; subst h2
+        exact hinv.inj n n' _ hl hl'
+      | none =>
+        simp only [hl'] at h2
+        split at h2
+        · simp only [Option.some.injEq] at h2
+          have := old_lt n _ hl
+          exact absurd h2.symm (Nat.ne_of_lt this)
+        · cases h2
+    | none =>
+      simp only [hl] at h1
+      split at h1
+      · rename_i hk
+        simp only [Option.some.injEq] at h1; subst h1
+        cases hl' : lookupIdx st.varIdx n' with
+        | some y =>
+          simp only [hl', Option.some.injEq] at h2
+          have := old_lt n' _ hl'
+          exact absurd h2 (Nat.ne_of_lt this)
+        | none =>
+          simp only [hl'] at h2
+          split at h2
+          · rename_i hk'; rw [← hk, ← hk']
+          · cases h2
+      · cases h1
+  · intro i j c d hij hi hj
+    show valueEquals c d = false
+    have hi' : (st.resources ++ [r])[i]? = some (.const c) := hi
+    have hj' : (st.resources ++ [r])[j]? = some (.const d) := hj
+    rcases snoc_cases hj' with ⟨hjl, hj''⟩ | ⟨_, hr⟩
+    · rw [List.getElem?_append_left (Nat.lt_trans hij hjl)] at hi'
+      exact hinv.nodup i j c d hij hi' hj''
+    · exact absurd hr.symm (hnc d)
+
+theorem lookupIdx_none_iff {st : CState} {Γ : TEnv} (hinv : Inv st Γ) (n : String) :
+    st.varIdx.any (fun x => decide (x.1 = n)) = Γ.any (fun x => decide (x.1 = n)) := by
+  rw [any_eq_find_isSome, any_eq_find_isSome]
+  have := hinv.vars n
+  cases hl : lookupIdx st.varIdx n with
+  | none =>
+    rw [hl] at this
+    have h1 : (st.varIdx.find? (fun x => decide (x.1 = n))) = none := by
+      unfold lookupIdx at hl; simpa using hl
+    have h2 : (Γ.find? (fun x => decide (x.1 = n))) = none := by
+      unfold lookupTy at this; simpa using this
+    rw [h1, h2]; rfl
+  | some a =>
+    rw [hl] at this
+    obtain ⟨_, t, _, _, _, h4⟩ := this
+    have h1 : (st.varIdx.find? (fun x => decide (x.1 = n))).isSome = true := by
+      unfold lookupIdx at hl
+      cases hf : st.varIdx.find? (fun x => decide (x.1 = n)) with
+      | none => simp [hf] at hl
+      | some _ => rfl
+    have h2 : (Γ.find? (fun x => decide (x.1 = n))).isSome = true := by
+      unfold lookupTy at h4
+      cases hf : Γ.find? (fun x => decide (x.1 = n)) with
+      | none => simp [hf] at h4
+      | some _ => rfl
+    rw [h1, h2]
+
+/-- the allocation of a declaration resource -/
+theorem allocDecl {st : CState} {Γ : TEnv} (hinv : Inv st Γ) {r : Resource} {name : String} {ty : Ty}
+    (hname : declName r = some name) (hty : r.bty = ty.toB) (hfresh : lookupIdx st.varIdx name = none) :
+    CkSpec (match allocRes st r with
+        | .error er => (.error er : Except CompileErr CState)
+        | .ok (addr, st') => .ok { st' with varIdx := st'.varIdx ++ [(name, addr)] }) true
+      (fun st' => Inv st' (Γ ++ [(name, ty)])) := by
+  have hnc : ∀ v, r ≠ .const v := by intro v hv; subst hv; simp [declName] at hname
+  cases h : allocRes st r with
+  | error e => cases allocRes_err h; trivial
+  | ok x =>
+    obtain ⟨addr, st'⟩ := x
+    have happ : appendResource st r = .ok (addr, st') := by
+      unfold allocRes at h
+      cases r with
+      | const v => exact absurd rfl (hnc v)
+      | var _ _ => exact h
+      | varMeta _ _ _ _ => exact h
+      | varBalance _ _ _ => exact h
+      | monetary _ _ => exact h
+    obtain ⟨rfl, rfl⟩ := appendResource_ok happ
+    exact ⟨rfl, hinv.declare hname hty hfresh⟩
+
+theorem visitVar_ck {st : CState} {Γ : TEnv} (hinv : Inv st Γ) (d : VarDecl) :
+    CkSpec (visitVar st d)
+      (!Γ.any (fun x => decide (x.1 = d.name)) && (match d.origin with
+        | .none => true
+        | .metaOf acc _ => decide (tyOf Γ acc = some .account)
+        | .balance acc a => decide (d.ty = .monetary) && decide (tyOf Γ acc = some .account) && decide (tyOf Γ a = some .asset)))
+      (fun st' => Inv st' (Γ ++ [(d.name, d.ty)])) := by
+  unfold visitVar
+  rw [← lookupIdx_none_iff hinv]
+  by_cases hdup : (st.varIdx.any fun x => decide (x.1 = d.name)) = true
+  · simp [hdup, CkSpec]
+  · have hdup' : (st.varIdx.any fun x => decide (x.1 = d.name)) = false := (Bool.not_eq_true _).mp hdup
+    have hfresh : lookupIdx st.varIdx d.name = none := by
+      rw [any_eq_find_isSome] at hdup'
+      unfold lookupIdx
+      cases hf : st.varIdx.find? (fun x => decide (x.1 = d.name)) with
+      | none => rfl
+      | some _ => simp [hf] at hdup'
+    simp only [hdup', Bool.false_eq_true, if_false, Bool.not_false, Bool.true_and]
+    cases ho : d.origin with
+    | none =>
+      simp only
+      exact allocDecl hinv (r := .var d.ty d.name) rfl rfl hfresh
+    | metaOf acc key =>
+      simp only
+      have ha : CkSpec (visitTyped st BTy.account acc) _ _ := visitTyped_ck hinv .account (by decide) acc
+      cases h1 : visitTyped st .account acc with
+      | error er => rw [h1] at ha; exact ha.err id
+      | ok r1 =>
+        obtain ⟨a, c1, st1⟩ := r1
+        rw [h1] at ha
+        simp only [ha.1]
+        have e1 := (visitTyped_ok h1).1
+        exact allocDecl (hinv.ext e1) (r := .varMeta d.ty d.name a key) rfl rfl (by rw [e1.vars]; exact hfresh)
+    | balance acc ae =>
+      simp only
+      by_cases hm : d.ty = .monetary
+      · simp only [hm, ne_eq, not_true_eq_false, if_false, decide_true, Bool.true_and]
+        have ha : CkSpec (visitTyped st BTy.account acc) _ _ := visitTyped_ck hinv .account (by decide) acc
+        cases h1 : visitTyped st .account acc with
+        | error er => rw [h1] at ha; exact ha.err (by intro hf; simp [hf])
+        | ok r1 =>
+          obtain ⟨a, c1, st1⟩ := r1
+          rw [h1] at ha
+          simp only [ha.1, Bool.true_and]
+          have e1 := (visitTyped_ok h1).1
+          have hs : CkSpec (visitTyped st1 BTy.asset ae) _ _ := visitTyped_ck (hinv.ext e1) .asset (by decide) ae
+          cases h2 : visitTyped st1 .asset ae with
+          | error er => rw [h2] at hs; exact hs.err id
+          | ok r2 =>
+            obtain ⟨s, c2, st2⟩ := r2
+            rw [h2] at hs
+            simp only [hs.1]
+            have e2 := (visitTyped_ok h2).1
+            have := allocDecl (hinv.ext (e1.trans e2)) (r := .varBalance d.name a s) (name := d.name) (ty := d.ty) rfl
+              (by rw [hm]; rfl) (by rw [(e1.trans e2).vars]; exact hfresh)
+            rw [hm] at this
+            exact this
+      · simp [hm, CkSpec]
+
+theorem checkVars_cons (d : VarDecl) (ds : List VarDecl) (Γ : TEnv) :
+    checkVars (d :: ds) Γ =
+      if (!Γ.any (fun x => decide (x.1 = d.name)) && (match d.origin with
+        | .none => true
+        | .metaOf acc _ => decide (tyOf Γ acc = some .account)
+        | .balance acc a => decide (d.ty = .monetary) && decide (tyOf Γ acc = some .account) && decide (tyOf Γ a = some .asset))) = true
+      then checkVars ds (Γ ++ [(d.name, d.ty)]) else none := by
+  simp only [checkVars]
+  cases hany : (Γ.any fun x => decide (x.1 = d.name))
+  · simp only [Bool.false_eq_true, if_false, Bool.not_false, Bool.true_and]
+    cases d.origin <;> simp
+  · simp
+
+theorem visitVarList_ck {st : CState} {Γ : TEnv} (hinv : Inv st Γ) (ds : List VarDecl) :
+    CkSpec (visitVarList st ds) (checkVars ds Γ).isSome (fun st' => ∃ Γ', checkVars ds Γ = some Γ' ∧ Inv st' Γ') := by
+  induction ds generalizing st Γ with
+  | nil => simp only [visitVarList, checkVars]; exact ⟨rfl, Γ, rfl, hinv⟩
+  | cons d rest ih =>
+    simp only [visitVarList]
+    rw [checkVars_cons]
+    have hv := visitVar_ck hinv d
+    cases h1 : visitVar st d with
+    | error er => rw [h1] at hv; exact hv.err (by intro hf; simp [hf])
+    | ok st1 =>
+      rw [h1] at hv
+      obtain ⟨hck, hinv1⟩ := hv
+      simp only [hck, if_true]
+      exact ih hinv1
+
+theorem inv_init : Inv {} [] :=
+  ⟨by intro n; simp [lookupIdx, lookupTy], by intro n n' a h; simp [lookupIdx] at h, by intro i j c d _ h; simp at h⟩
+
+/-- **the compiler against the static rules**: success needs `check` to pass, a static refusal needs it to fail,
+a nil dereference never happens; only the two size limits lie outside `check` -/
+theorem compile_ck (P : Script) : CkSpec (compile P) (check P) (fun _ => True) := by
+  unfold compile check visitVars
+  by_cases hlen : P.vars.length > 32768
+  · simp [hlen, CkSpec]
+  · simp only [hlen, if_false]
+    have hv := visitVarList_ck inv_init P.vars
+    cases h0 : visitVarList {} P.vars with
+    | error er =>
+      rw [h0] at hv
+      refine hv.err ?_
+      intro hf
+      rw [isSome_false hf]
+    | ok st0 =>
+      rw [h0] at hv
+      obtain ⟨_, Γ, hΓ, hinv⟩ := hv
+      simp only [hΓ]
+      have hs := visitStmts_ck hinv P.stmts
+      cases h1 : visitStmts st0 P.stmts with
+      | error er => rw [h1] at hs; exact hs.err id
+      | ok r => obtain ⟨code, st⟩ := r; rw [h1] at hs; exact ⟨hs.1, trivial⟩
 
 end Num
